@@ -92,6 +92,17 @@ func cmpHeaders(want, got map[string]string) string {
 	return strings.Join(diffs, "; ")
 }
 
+// c07Marker identifies a consumed message: header-less messages carry their
+// marker in the payload ("nohdr:<marker>:..."), all others in X-Verif-Marker.
+func c07Marker(h map[string]string, payload []byte) string {
+	if bytes.HasPrefix(payload, []byte("nohdr:")) {
+		if parts := bytes.SplitN(payload, []byte(":"), 3); len(parts) == 3 {
+			return string(parts[1])
+		}
+	}
+	return h["X-Verif-Marker"]
+}
+
 func shaHex(b []byte) string {
 	s := sha256.Sum256(b)
 	return hex.EncodeToString(s[:])
@@ -217,7 +228,7 @@ func C07(c *vlib.Ctx) {
 	failFirst := map[string]int{}
 	sink := httptest.NewServer(http.HandlerFunc(func(w http.ResponseWriter, r *http.Request) {
 		b, _ := io.ReadAll(r.Body)
-		marker := r.Header.Get("X-Verif-Marker")
+		marker := c07Marker(map[string]string{"X-Verif-Marker": r.Header.Get("X-Verif-Marker")}, b)
 		smu.Lock()
 		sinkGot[marker] = append(sinkGot[marker], sinkRec{b, r.Header.Clone()})
 		n := len(sinkGot[marker])
@@ -404,6 +415,28 @@ admin_api { listen 127.0.0.3:0 }
 			accepted = append(accepted, sent{marker, route, body, want})
 			c.Count("published_items", 1)
 		}
+		// header-less messages (published without a headers object), interleaved in
+		// storage order with the messages above: they must come out without headers,
+		// whatever was read from the store just before them
+		for k := 0; k < 6; k++ {
+			id := fmt.Sprintf("nohdr-%d-%d", ci, k)
+			route := vlib.Pick(r, []string{"/p", "/p", "/d"})
+			body := append([]byte("nohdr:"+id+":"), r.Bytes(r.Intn(40))...)
+			items := []map[string]any{{"id": id, "route": route, "payload_b64": base64.StdEncoding.EncodeToString(body)}}
+			// a companion with headers right behind it in the same request
+			cid := fmt.Sprintf("pub-%d-c%d", ci, k)
+			chdr := map[string]string{"X-Verif-Marker": cid, "X-Tenant": fmt.Sprintf("tenant-%d", k)}
+			cbody := []byte("companion")
+			items = append(items, map[string]any{"id": cid, "route": route, "payload_b64": base64.StdEncoding.EncodeToString(cbody), "headers": chdr})
+			req := l2.JSONReq("POST", a.Compiled.AdminAPI.Prefix+"/messages/publish", map[string]any{"items": items}, "")
+			req.Header.Set("X-Hookaido-Audit-Reason", "verif")
+			if resp := l2.Do(a.Admin, req); resp.Status != 200 {
+				viol("valid_publish_refused", fmt.Sprintf("publish of a header-less item answered %d: %s", resp.Status, string(resp.Body[:minInt(200, len(resp.Body))])), nil, nil)
+				continue
+			}
+			accepted = append(accepted, sent{id, route, body, map[string]string{}}, sent{cid, route, cbody, chdr})
+			c.Count("published_items_without_headers", 1)
+		}
 		// ---- disturbances between acceptance and consumption: operations that are
 		// refused, or that move messages through operator states, must leave payload
 		// and headers of every stored message alone
@@ -494,7 +527,7 @@ admin_api { listen 127.0.0.3:0 }
 							return
 						}
 						for _, it := range resp.Items {
-							m := it.Headers["X-Verif-Marker"]
+							m := c07Marker(it.Headers, it.Payload)
 							checkOne("pull_grpc", round, m, it.Payload, it.Headers)
 							got = append(got, item{m, it.LeaseId})
 						}
@@ -517,7 +550,7 @@ admin_api { listen 127.0.0.3:0 }
 								viol("payload_b64_not_std_base64", "payload_b64 does not decode as standard base64: "+err.Error(), nil, it.PayloadB64[:minInt(40, len(it.PayloadB64))])
 								continue
 							}
-							m := it.Headers["X-Verif-Marker"]
+							m := c07Marker(it.Headers, p)
 							checkOne("pull_http", round, m, p, it.Headers)
 							got = append(got, item{m, it.LeaseID})
 						}
@@ -559,7 +592,7 @@ admin_api { listen 127.0.0.3:0 }
 					viol("payload_b64_not_std_base64", "admin listing payload_b64: "+err.Error(), nil, nil)
 					continue
 				}
-				checkOne("admin_listing"+tag, 0, it.Headers["X-Verif-Marker"], p, it.Headers)
+				checkOne("admin_listing"+tag, 0, c07Marker(it.Headers, p), p, it.Headers)
 			}
 		}
 		adminListing("")
